@@ -185,6 +185,40 @@ enum ReadFault {
     /// the get fails with an I/O error of kind Other
     Fail { nth: usize },
 }
+/// one flipped bit at `pos`, and in half of the cases more, structure-aware damage: a second flip in
+/// another region, a zero-filled range of 16 bytes, a structural header field (record count, min,
+/// max, checksum: bytes 8..36) set to 0xFF, a header byte +1, a zero-filled footer
+fn extra_damage(buf: &mut Vec<u8>, pos: usize, bit: u8, draw: u64) {
+    let len = buf.len();
+    buf[pos] ^= 1u8 << (bit % 8);
+    match (draw >> 32) % 10 {
+        0 => {
+            let other = if pos < 64 && len > 90 { 64 + (draw as usize) % (len - 88) } else { (draw as usize) % 64.min(len) };
+            buf[other] ^= 0x10;
+        }
+        1 => {
+            for b in buf.iter_mut().skip(pos).take(16) {
+                *b = 0;
+            }
+        }
+        2 => {
+            let f = 8 + ((draw as usize) % 7) * 4;
+            for b in buf.iter_mut().skip(f).take(4) {
+                *b = 0xFF;
+            }
+        }
+        3 => {
+            let h = (draw as usize) % 40.min(len);
+            buf[h] = buf[h].wrapping_add(1);
+        }
+        4 => {
+            for b in buf.iter_mut().skip(len.saturating_sub(24)) {
+                *b = 0;
+            }
+        }
+        _ => {}
+    }
+}
 fn region_name(pos: usize, len: usize) -> &'static str {
     if pos < 64 { "header" } else if pos + 24 >= len { "footer" } else { "data" }
 }
@@ -375,7 +409,7 @@ impl ObjectStore for ScriptedStore {
                             if !buf.is_empty() {
                                 let clean = read_seg(buf);
                                 let pos = flip_pos(buf.len(), region, pos_draw);
-                                buf[pos] ^= 1u8 << (bit % 8);
+                                extra_damage(buf, pos, bit, pos_draw);
                                 let seen = read_seg(buf);
                                 let same = match (&clean, &seen) {
                                     (Some(a), Some(b)) => a.len() == b.len() && a.iter().zip(b.iter()).all(|(x, y)| x.key == y.key && x.source_replica == y.source_replica && obs(&x.value) == obs(&y.value)),
@@ -897,7 +931,9 @@ fn gen_layout(rng: &mut Rng) -> Layout {
             1 => rng.gen_range(0..20u64),
             _ => {
                 if r == far {
-                    rng.gen_range(1000..1_000_000u64)
+                    // a fifth of the far-ahead clocks sit at the top of the u64 range (lesson 5)
+                    let v = rng.gen_range(1000..1_000_000u64);
+                    match v % 10 { 0 => (1u64 << 63) + v, 1 => u64::MAX - (1u64 << 24) - v, _ => v }
                 } else {
                     rng.gen_range(0..10u64)
                 }
@@ -999,8 +1035,10 @@ fn gen_layout(rng: &mut Rng) -> Layout {
         }
     }
     // ids
-    let last = if has_ck { rng.gen_range(0..3u64) } else { 0 };
-    let mut id = if has_ck { last + 1 + rng.gen_range(0..2u64) } else { rng.gen_range(0..3u64) };
+    // a sixth of the layouts have ids around 10^8, where the {:08} object names grow a digit
+    let wide: u64 = if start_clocks.iter().fold(0u64, |a, b| a.wrapping_add(*b)) % 6 == 0 { 99_999_996 } else { 0 };
+    let last = wide + if has_ck { rng.gen_range(0..3u64) } else { 0 };
+    let mut id = if has_ck { last + 1 + rng.gen_range(0..2u64) } else { wide + rng.gen_range(0..3u64) };
     let mut segs: Vec<SegSpec> = Vec::new();
     for ds in seg_deltas {
         let mut w = SegmentWriter::new(Compression::None);
@@ -1053,7 +1091,7 @@ fn gen_layout(rng: &mut Rng) -> Layout {
     let (now, now_class) = match rng.gen_range(0..4) {
         0 | 1 => (1_758_000_000_000u64 + rng.gen_range(0..1_000_000u64), "now:production-like"),
         2 => (0u64, "now:zero"),
-        _ => (stamps[rng.gen_range(0..stamps.len())] + ttl_ms + rng.gen_range(0..2u64), "now:near-logical-stamps"),
+        _ => (stamps[rng.gen_range(0..stamps.len())].saturating_add(ttl_ms).saturating_add(rng.gen_range(0..2u64)), "now:near-logical-stamps"),
     };
     let version = rng.gen_range(0..40u64);
     // the deltas of the concurrent flush
@@ -1357,7 +1395,92 @@ fn sched_text(s: &[u8]) -> String {
     s.iter().map(|a| if *a == 0 { 'c' } else { 'f' }).collect()
 }
 
+/// size-boundary layout (oracle only, no Coq case; lesson 2): 2-3 input segments of 4095 / 4096 /
+/// 4097 deltas over hundreds of keys (strings, deletes, hashes written by three replicas, one
+/// clock at the top of the u64 range), compacted with the tombstone filter inactive; the state
+/// recovered afterwards must equal the state recovered before, and a second compaction too
+async fn run_big(seed: u64, i: u64, verbose: bool, out: &mut Out) {
+    let mut rng = case_rng(seed ^ 0x13C0_B16, i);
+    let mut reps: Vec<ShardReplicaState> = (1..=3u64).map(|r| ShardReplicaState::new(ReplicaId(r), ConsistencyLevel::Eventual)).collect();
+    reps[1].lamport_clock.time = 1 << 33;
+    reps[2].lamport_clock.time = (1u64 << 63) + 11;
+    let nkeys = rng.gen_range(300..3000usize);
+    let nseg = rng.gen_range(2..=3usize);
+    let mut map = Map::new();
+    let mut infos: Vec<SegmentInfo> = Vec::new();
+    let base_id = if rng.gen_bool(0.3) { 99_999_998u64 } else { rng.gen_range(0..5u64) };
+    let mut total = 0usize;
+    for j in 0..nseg {
+        let n = [4095usize, 4096, 4097][rng.gen_range(0..3)];
+        total += n;
+        let mut w = SegmentWriter::new(Compression::None);
+        let (mut mn, mut mx) = (u64::MAX, 0u64);
+        for _ in 0..n {
+            let k = rng.gen_range(0..nkeys);
+            let r = rng.gen_range(0..3usize);
+            let d = if k % 4 == 0 {
+                reps[r].record_hash_write(format!("h{}", k), vec![(format!("f{}", r), SDS::new(VALS[rng.gen_range(0..VALS.len())].to_vec()))])
+            } else if rng.gen_bool(0.15) {
+                match reps[r].record_delete(format!("k{}", k)) {
+                    Some(d) => d,
+                    None => reps[r].record_write(format!("k{}", k), SDS::new(b"z".to_vec()), None),
+                }
+            } else {
+                reps[r].record_write(format!("k{}", k), SDS::new(VALS[rng.gen_range(0..VALS.len())].to_vec()), if rng.gen_bool(0.2) { Some(1000 * rng.gen_range(1..9u64)) } else { None })
+            };
+            mn = mn.min(d.value.timestamp.time);
+            mx = mx.max(d.value.timestamp.time);
+            w.write_delta(&d).unwrap();
+        }
+        let data = w.finish().unwrap();
+        let id = base_id + j as u64;
+        infos.push(SegmentInfo { id, key: seg_key(id), record_count: n as u32, size_bytes: data.len() as u64, min_timestamp: mn, max_timestamp: mx });
+        map.insert(seg_key(id), Arc::new(data));
+    }
+    let manifest = Manifest { version: 3, replica_id: 1, next_segment_id: base_id + nseg as u64, segments: infos, checkpoint: None };
+    let st0 = ScriptedStore::new(map);
+    ManifestManager::new(st0.clone(), PREFIX).save(&manifest).await.unwrap();
+    let map0 = st0.map();
+    let before = do_recover(&map0).await;
+    let store = ScriptedStore::new(map0.clone());
+    let cc = CompactionConfig { target_segment_size: usize::MAX / 2, max_segments: 100, min_segments_to_compact: 2, max_segments_per_compaction: 5, tombstone_ttl: Duration::from_millis(1000), compression_enabled: false };
+    let mut comp = Compactor::with_time_source(Arc::new(store.clone()), PREFIX.to_string(), ManifestManager::new(store.clone(), PREFIX), cc, FixedTime(0));
+    let c1 = CRes::of(comp.compact().await);
+    let after = do_recover(&store.map()).await;
+    let c2 = CRes::of(comp.compact().await);
+    let after2 = do_recover(&store.map()).await;
+    out.impl_checks += 3;
+    out.count(&format!("size-boundary-layout:{}-segments", nseg));
+    let problem: Option<String> = match (&before, &after, &after2) {
+        (Ok(b), Ok(a), Ok(a2)) => {
+            let (sb, sa, sa2) = (b.fold(), a.fold(), a2.fold());
+            let d1 = diff_keys(&sb, &sa, false);
+            let d2 = diff_keys(&sb, &sa2, false);
+            if !matches!(c1, CRes::Ok(_)) {
+                Some(format!("compaction of {} small segments returned {}", nseg, c1.text()))
+            } else if !d1.is_empty() {
+                Some(format!("{} keys differ after the compaction, e.g. {:?}: before {} after {}", d1.len(), &d1[0], show(&sb, &d1[0]), show(&sa, &d1[0])))
+            } else if !d2.is_empty() {
+                Some(format!("{} keys differ after the second compaction ({}), e.g. {:?}", d2.len(), c2.text(), &d2[0]))
+            } else {
+                None
+            }
+        }
+        _ => Some(format!("recovery failed: before {:?} after {:?} after2 {:?}", before.as_ref().err(), after.as_ref().err(), after2.as_ref().err())),
+    };
+    if verbose {
+        println!("size-boundary layout {}: {} deltas in {} segments over {} keys, ids from {}: {} / {}: {}", i, total, nseg, nkeys, base_id, c1.text(), c2.text(), problem.clone().unwrap_or_else(|| "ok".into()));
+    }
+    if let Some(p) = problem {
+        out.count(&format!("violation:{}", V_STATE));
+        out.violation(i, V_STATE, json!({"kind": "size-boundary layout", "deltas": total, "segments": nseg, "keys": nkeys, "first_id": base_id, "problem": p}));
+    }
+}
+
 async fn run_case(seed: u64, i: u64, verbose: bool, inter: u64, plain: bool, out: &mut Out) {
+    if i % 250 == 9 {
+        return run_big(seed, i, verbose, out).await;
+    }
     let mut rng = case_rng(seed, i);
     let lay = gen_layout(&mut rng);
     let manifest = lay.manifest();
@@ -1396,7 +1519,8 @@ async fn run_case(seed: u64, i: u64, verbose: bool, inter: u64, plain: bool, out
             let mut buf = sseg.data.clone();
             if buf.is_empty() { break; }
             let pos = flip_pos(buf.len(), frng.gen_range(0..3), frng.gen());
-            buf[pos] ^= 1u8 << frng.gen_range(0..8);
+            let (b, dr): (u8, u64) = (frng.gen_range(0..8), frng.gen());
+            extra_damage(&mut buf, pos, b, dr);
             if read_seg(&buf).is_none() {
                 map0.insert(sseg.info.key.clone(), Arc::new(buf));
                 damaged = Some(sseg.id);
@@ -1841,6 +1965,74 @@ async fn run_case(seed: u64, i: u64, verbose: bool, inter: u64, plain: bool, out
         println!("Coq case, written out in full (same term):\n(K13 {})", plain_fields.join("\n  "));
     }
 
+    // ---- oracle (4): every field of the manifest the compaction must not touch (lesson 8)
+    if let (CRes::Ok(_), Some(m)) = (&cres, &man_after) {
+        out.impl_checks += 1;
+        if m.checkpoint != manifest.checkpoint || m.replica_id != manifest.replica_id || m.next_segment_id < manifest.next_segment_id {
+            out.count(&format!("violation:{}", V_MANIFEST));
+            out.violation(i, V_MANIFEST, base(json!({"problem": "checkpoint / replica_id / next_segment_id of the manifest changed in a way a compaction must not cause",
+                "before": {"checkpoint": format!("{:?}", manifest.checkpoint), "replica_id": manifest.replica_id, "next_segment_id": manifest.next_segment_id},
+                "after": {"checkpoint": format!("{:?}", m.checkpoint), "replica_id": m.replica_id, "next_segment_id": m.next_segment_id}})));
+        }
+    }
+    // ---- oracle (5): a second compact() on the same Compactor instance (lessons 4, 7)
+    if !faulted && rec_b.is_ok() && matches!(cres, CRes::Ok(_)) && cres.tombstones_removed() == 0 {
+        let cres2 = CRes::of(comp.compact().await);
+        if cres2.tombstones_removed() == 0 {
+            out.impl_checks += 1;
+            let bad: Option<String> = match do_recover(&store.map()).await {
+                Err(e) => Some(format!("recovery fails: {}", e)),
+                Ok(r) => {
+                    let dk = diff_keys(&s_before, &r.fold(), false);
+                    if dk.is_empty() { None } else { Some(format!("keys {:?} differ", dk)) }
+                }
+            };
+            out.count(&format!("second-compaction:{}", cres2.kind()));
+            if let Some(b) = bad {
+                out.count(&format!("violation:{}", V_STATE));
+                out.violation(i, V_STATE, base(json!({"when": "after a second compact() on the same Compactor", "second_result": cres2.text(), "what": b})));
+            }
+        }
+    }
+    // ---- oracle (6): compact_if_needed at the max_segments boundary (entry point, lessons 1, 2)
+    if !faulted && rec_b.is_ok() {
+        let nseg = manifest.segments.len();
+        let mut orng = case_rng(seed ^ 0x13C0_1F4E, i);
+        let max_segments = (nseg as i64 + orng.gen_range(-1..=1i64)).max(1) as usize;
+        let st = ScriptedStore::new(map0.clone());
+        let mut cc = lay.cc();
+        cc.max_segments = max_segments;
+        let mut cp = Compactor::with_time_source(Arc::new(st.clone()), PREFIX.to_string(), ManifestManager::new(st.clone(), PREFIX), cc, FixedTime(lay.now));
+        let r = cp.compact_if_needed().await;
+        out.impl_checks += 1;
+        let needed = nseg >= max_segments;
+        let problem: Option<String> = match &r {
+            Err(e) => Some(format!("compact_if_needed failed on a healthy store: {}", e)),
+            Ok(res) => {
+                if !needed && (res.is_some() || st.map() != map0) {
+                    Some(format!("{} segments < max_segments {}: nothing must happen, but result {:?} / store changed: {}", nseg, max_segments, res.as_ref().map(|c| c.segments_removed.len()), st.map() != map0))
+                } else if needed && res.is_some() != matches!(cres, CRes::Ok(_)) {
+                    Some(format!("{} segments >= max_segments {}: compact() on this layout gives {} but compact_if_needed gives {}", nseg, max_segments, cres.kind(), if res.is_some() { "Some" } else { "None" }))
+                } else if res.as_ref().map_or(0, |c| c.tombstones_removed) == 0 {
+                    match do_recover(&st.map()).await {
+                        Err(e) => Some(format!("recovery fails afterwards: {}", e)),
+                        Ok(rr) => {
+                            let dk = diff_keys(&s_before, &rr.fold(), false);
+                            if dk.is_empty() { None } else { Some(format!("keys {:?} differ afterwards", dk)) }
+                        }
+                    }
+                } else {
+                    None
+                }
+            }
+        };
+        out.count(&format!("compact_if_needed:segments{}max_segments", if nseg < max_segments { "<" } else if nseg == max_segments { "=" } else { ">" }));
+        if let Some(p) = problem {
+            out.count(&format!("violation:{}", V_STATE));
+            out.violation(i, V_STATE, base(json!({"entry_point": "Compactor::compact_if_needed", "segments": nseg, "max_segments": max_segments, "problem": p})));
+        }
+    }
+
     // ---- oracle (3): interleavings with a concurrent flush
     let eligible = rec_b.is_ok() && cres.created().is_some() && !faulted;
     // the random schedules are drawn whether or not the case is eligible
@@ -2023,7 +2215,7 @@ fn main() {
     let inter = args.get("inter", 6);
     let plain = args.get("plain", 0) != 0;
     let mut out = Out::new(&args.out, "C13", args.shards, HEADER);
-    out.nontrivial_rule = "a case = a layout of 2-6 segments (1-8 deltas each, the first one or two larger in 60%; real SegmentWriter) plus a checkpoint in 30% (last_segment_id below every listed id; real CheckpointWriter) and the manifest flush would have written, holding SET (30% with expiry) / DEL / HSET / HDEL updates over keys k/j/m (strings) and h/g (hashes, fields f1..f3; in half of the cases every replica writes its own field) issued by 2-4 real ShardReplicaStates with independent clocks (small with ties / interleaved with cross delivery / one far ahead), assigned to segments in generation order with swaps and duplicates (overlapping stamp ranges, the same key in several segments); 55% plant SET K early (first segment or checkpoint) and DEL K later; CompactionConfig: target_segment_size = the size of the largest or second largest segment in about half of the cases (segments of at least that size are skipped) else huge, min_segments_to_compact 2-3, max_segments_per_compaction 2/3/5, tombstone_ttl 100 ms or 24 h; time source 50% production-like (1.758e12), 25% 0, 25% a logical stamp of the layout + ttl; unreferenced leftovers in the store before the compaction starts (38% of the cases, own stream): the leftover of a REAL StreamingPersistence::flush run on the layout whose manifest step was failed by the scripted store (put of manifest.json.tmp without effect or torn, or the rename), or constructed directly: under the key of next_segment_id a valid segment with unrelated deltas / garbage bytes / an empty object / a copy of an input, objects under other unlisted ids (above next_segment_id, in an id gap), a stale manifest.json.tmp (garbage or an old manifest); read faults of the sequential run, drawn per case from a separate stream: 25% one GET of an input segment returns the bytes with one bit flipped in header / record data / footer while the object at rest is intact (outcome GB if the real SegmentReader rejects the image, OK if the flip is harmless), 8% one GET of an input fails (EN), 12% one listed segment is damaged at rest (an undecodable object in the Coq case), 55% none; recovery itself always reads clean; every crash instant inside the compaction is recovered too; non-trivial = the compaction returned Ok; distinct by layout text. Interleavings (fault-free cases whose sequential compaction created a segment; not part of the Coq case, the model runs operations sequentially): one flush of 1-3 new deltas through the real StreamingPersistence runs concurrently with the compaction on a fresh copy of the layout; they are produced by admitting the two operations' store calls in a scripted order (two handles of one scripted store carrying an actor id, every store call waits with yield_now until the schedule names its actor, both futures driven by tokio::join! on a current-thread runtime); schedules = the flush's 4 calls as one block after j of the compaction's n calls (j = 0..n) plus --inter random merges".into();
+    out.nontrivial_rule = "a case = a layout of 2-6 segments (1-8 deltas each, the first one or two larger in 60%; real SegmentWriter) plus a checkpoint in 30% (last_segment_id below every listed id; real CheckpointWriter) and the manifest flush would have written, holding SET (30% with expiry) / DEL / HSET / HDEL updates over keys k/j/m (strings) and h/g (hashes, fields f1..f3; in half of the cases every replica writes its own field) issued by 2-4 real ShardReplicaStates with independent clocks (small with ties / interleaved with cross delivery / one far ahead), assigned to segments in generation order with swaps and duplicates (overlapping stamp ranges, the same key in several segments); 55% plant SET K early (first segment or checkpoint) and DEL K later; CompactionConfig: target_segment_size = the size of the largest or second largest segment in about half of the cases (segments of at least that size are skipped) else huge, min_segments_to_compact 2-3, max_segments_per_compaction 2/3/5, tombstone_ttl 100 ms or 24 h; time source 50% production-like (1.758e12), 25% 0, 25% a logical stamp of the layout + ttl; unreferenced leftovers in the store before the compaction starts (38% of the cases, own stream): the leftover of a REAL StreamingPersistence::flush run on the layout whose manifest step was failed by the scripted store (put of manifest.json.tmp without effect or torn, or the rename), or constructed directly: under the key of next_segment_id a valid segment with unrelated deltas / garbage bytes / an empty object / a copy of an input, objects under other unlisted ids (above next_segment_id, in an id gap), a stale manifest.json.tmp (garbage or an old manifest); read faults of the sequential run, drawn per case from a separate stream: 25% one GET of an input segment returns the bytes with one bit flipped in header / record data / footer while the object at rest is intact (outcome GB if the real SegmentReader rejects the image, OK if the flip is harmless), 8% one GET of an input fails (EN), 12% one listed segment is damaged at rest (an undecodable object in the Coq case), 55% none; recovery itself always reads clean; every crash instant inside the compaction is recovered too; a fifth of the far-ahead clocks sit at the top of the u64 range (2^63.., u64::MAX - 2^24..), a sixth of the layouts use ids around 10^8 (object names grow a digit); damaged reads / objects carry one flipped bit and, in half of the cases, further structure-aware damage (second flip in another region, 16 zero-filled bytes, a header field set to 0xFF, a header byte +1, a zero-filled footer); after the sequential run: a second compact() on the same Compactor, and Compactor::compact_if_needed on a fresh copy with max_segments = number of segments -1 / +0 / +1; indices 9 mod 250 are size-boundary layouts (oracle only): 2-3 segments of 4095 / 4096 / 4097 deltas over 300-3000 keys compacted twice; non-trivial = the compaction returned Ok; distinct by layout text. Interleavings (fault-free cases whose sequential compaction created a segment; not part of the Coq case, the model runs operations sequentially): one flush of 1-3 new deltas through the real StreamingPersistence runs concurrently with the compaction on a fresh copy of the layout; they are produced by admitting the two operations' store calls in a scripted order (two handles of one scripted store carrying an actor id, every store call waits with yield_now until the schedule names its actor, both futures driven by tokio::join! on a current-thread runtime); schedules = the flush's 4 calls as one block after j of the compaction's n calls (j = 0..n) plus --inter random merges".into();
     if !verbose {
         std::panic::set_hook(Box::new(|_| {}));
     }
